@@ -104,6 +104,27 @@ OTHER = {"python": ["rust", "dotnet"], "rust": ["python", "dotnet"], "dotnet": [
 EST_WRITES = {"python": 1, "rust": 1, "dotnet": 90, "testdata": 1500}
 
 
+def crash_sweep(seed: int, points: int) -> List[Dict[str, Any]]:
+    """Systematic part: for the two plugins that own many files, an earlier run of a related model is
+    killed (or its disk fails) at every position of an even grid over its writes, resp. over the
+    unlinks of its cleanup; the following fault-free run must still produce the reference tree."""
+    out = []
+    for plugin in ("dotnet", "testdata"):
+        M = {"base": "sub", "sub_seed": core.derive(seed, "crash-sweep-model", plugin) % 2**40, "lo": 2, "hi": 3, "n_edits": 2, "edits_seed": 7}
+        Mp = dict(M, n_edits=4, edits_seed=8)
+        for kind, on in (("torn_kill", "write"), ("kill_before", "write"), ("enospc", "write"), ("kill_unlink", "unlink")):
+            for i in range(points):
+                frac = i / max(1, points - 1)
+                rs = core.derive(seed, PROP, "crash-sweep", plugin, kind, i)
+                env = {"hashseed": "0", "uuid_seed": 2, "ls_seed": None, "locale": None}
+                ops: List[List[Any]] = []
+                if on == "unlink":
+                    ops.append(["RUN", Mp, env, None])
+                ops.append(["RUN", Mp if i % 2 else M, env, {"kind": kind, "on": on, "at_frac": frac, "frac": [0.0, 0.5, 0.999][i % 3]}])
+                out.append({"run_seed": rs, "plugin": plugin, "model": M, "ops": ops, "finals": [env], "test_dir": False, "sweep": True})
+    return out
+
+
 def gen_history(run_seed: int, tier: str, plugin: Optional[str] = None) -> Dict[str, Any]:
     r = core.rng(run_seed, "ops")
     rf = core.rng(run_seed, "faults")
@@ -262,9 +283,13 @@ def execute(h: Dict[str, Any]) -> Dict[str, Any]:
                 if op[1] != h["model"]:
                     probes["different_model_before"] += 1
                 fault = dict(op[3]) if op[3] else None
-                if fault and fault.get("on") == "write" and fault["at"] > 1 and plugin in ("dotnet", "testdata"):
+                if fault and "at_frac" in fault:
+                    # systematic crash-point sweep: position as a fraction of the writes / owned files
+                    total = ref_writes if fault.get("on") == "write" else max(1, len(gw.owned_files(plugin, out)))
+                    fault["at"] = 1 + int(fault["at_frac"] * max(0, total - 1))
+                elif fault and fault.get("on") == "write" and fault["at"] > 1 and plugin in ("dotnet", "testdata"):
                     fault["at"] = 1 + (fault["at"] - 1) % max(1, ref_writes)
-                if fault and fault.get("on") == "unlink":
+                if fault and fault.get("on") == "unlink" and "at_frac" not in fault:
                     n_owned = len(gw.owned_files(plugin, out))
                     if n_owned:
                         fault["at"] = 1 + (fault["at"] - 1) % n_owned
@@ -452,8 +477,8 @@ def replay_file(path: str) -> int:
 # --------------------------------------------------------------------------------------------
 
 TIERS = {
-    "quick": {"runs": 420, "det": 24, "budget": 100.0, "full_testdata": 0},
-    "thorough": {"runs": 9000, "det": 120, "budget": 2400.0, "full_testdata": 2},
+    "quick": {"runs": 420, "det": 24, "budget": 100.0, "full_testdata": 0, "crash_points": 6},
+    "thorough": {"runs": 9000, "det": 120, "budget": 2400.0, "full_testdata": 2, "crash_points": 120},
 }
 
 
@@ -484,7 +509,12 @@ def main(argv: List[str]) -> int:
     run_seeds = [core.derive(seed, PROP, i) for i in range(cfg["runs"])]
     hist: Dict[int, Dict[str, Any]] = {}
 
+    sweep = [] if a.plugin else crash_sweep(seed, cfg["crash_points"])
+
     def gen():
+        for h in sweep:
+            hist[h["run_seed"]] = h
+            yield h
         for i, s in enumerate(run_seeds):
             h = gen_history(s, tier, a.plugin)
             hist[s] = h
@@ -587,6 +617,8 @@ def main(argv: List[str]) -> int:
         "faults_fired": ff,
         "probes": probes,
         "histories_per_plugin": per_plugin,
+        "systematic_crash_point_sweep": {"histories": sum(1 for r in judged if hist.get(r["run_seed"], {}).get("sweep")), "points_per_plugin_and_fault_kind": cfg["crash_points"],
+                                         "plugins": ["dotnet", "testdata"], "fault_kinds": ["torn_kill", "kill_before", "enospc", "kill_unlink"]},
         "skipped_reference_failed": skipped,
         "determinism": {"rerun_other_worker_count": det_checked, "mismatches": det_mismatch},
         "real_vs_stub": {"real": ["generator CLI, model loader, all four plugins (current working tree)", "CPython, pathlib, json, file system (tmpfs)"],
